@@ -14,7 +14,8 @@
   and, on top, a network = nodes + datagrams in flight (used by the driver and by the path theorems).
 
   Quirks kept: tables are looked up in the order the code uses (relays first on receipt; circuit, exit, relay on
-  sending); a cell for an id with no entry is sent unencrypted; a circuit without verified hops decrypts nothing;
+  sending); a cell for an id with no entry is sent unencrypted; a circuit without verified hops accepts only
+  plaintext-flagged cells;
   on_created neither checks the sender nor the CREATED's circuit id, only the identifier; every relayed cell bumps
   relay_early_count; a relay re-encrypts backward cells blindly; on_data's "origin" test is always true;
   exit_data checks the source only while the socket is not yet enabled; on_ping answers to the datagram's source.
@@ -351,7 +352,10 @@ def inCrypto (n : Node) (c : Cell B) : Option B :=
   match get n.exits c.cid, get n.circuits c.cid with
   | none, none => if c.plaintext then some c.body else none
   | some e, _ => if c.plaintext then some c.body else A.dec e.hop.key .fwd c.body
-  | none, some circ => if c.plaintext then some c.body else decryptAll A .bwd (circ.hops.map Hop.key) c.body
+  | none, some circ =>
+    if c.plaintext then some c.body
+    else if circ.hops.isEmpty then none        -- no hop verified yet: there are no keys, nothing is accepted
+    else decryptAll A .bwd (circ.hops.map Hop.key) c.body
 
 /-- process_cell (+ on_cell / on_packet_from_circuit dispatch) -/
 def processCell (n : Node) (src : Nat) (c : Cell B) (ch : Choice) : Node × List (Out B) :=
